@@ -13,6 +13,7 @@ import (
 	"fmt"
 	"math/big"
 	mrand "math/rand"
+	"net/http"
 	"strings"
 	"sync"
 	"time"
@@ -785,6 +786,38 @@ func c10(x *mon.Ctx) {
 				}
 				x.Note("hostile-response-over-real-http", fmt.Sprintf("%s/%s/h2=%v/wrapped=%v/%s", c.Class, c.Param, h2, vi == 2, pcs.Mode), false, p != "", p == "")
 				n++
+			}
+			// an endpoint that throttles: failure statuses with every kind of Retry-After value (seconds small and absurd, an HTTP date
+			// an hour or seventy years ahead or long past, garbage). Whatever the getter makes of the advice, the call comes back.
+			if vi < 2 {
+				for ri, ra := range []string{"1", "0", "86400", "99999999999999999999", "-1", "1.5", "soon", time.Now().Add(time.Hour).UTC().Format(http.TimeFormat), "Wed, 21 Oct 2099 07:28:00 GMT", "Fri, 31 Dec 9999 23:59:59 GMT", "Thu, 01 Jan 1970 00:00:00 GMT", time.Now().Add(time.Hour).UTC().Format(time.RFC850), time.Now().Add(time.Hour).UTC().Format(time.ANSIC)} {
+					for _, code := range []string{"429", "503", "301", "500"} {
+						if (code == "301" || code == "500") && ri != 8 {
+							continue
+						}
+						pcs.Serve(cs.Resp)
+						pcs.Mode = "content-length"
+						pcs.Lock(func() {
+							for u := range cs.Resp {
+								pcs.Script[u] = []string{code + ":" + ra, code + ":" + ra, code + ":" + ra}
+							}
+						})
+						o, _ := mon.Options(cs)
+						o.Getter = &trust.SimpleHTTPSGetter{}
+						if ri%2 == 1 {
+							o.Getter = &trust.RetryHTTPSGetter{Timeout: 150 * time.Millisecond, MaxRetryDelay: 20 * time.Millisecond, Getter: &trust.SimpleHTTPSGetter{}}
+						}
+						m := mon.MessageFor("built", cs.Quote)
+						p := guardHang("verify.TdxQuote(production getter)", func() { _ = verify.TdxQuote(m, o) })
+						param := fmt.Sprintf("throttled/%s/retry-after=%s/h2=%v/retrying=%v", code, ra, h2, ri%2 == 1)
+						if p != "" {
+							x.Violation("hostile-response-over-real-http", param, p, "none", nil)
+						}
+						x.Note("hostile-response-over-real-http", param, false, p != "", p == "")
+						n++
+					}
+				}
+				pcs.Lock(func() { pcs.Script = map[string][]string{} })
 			}
 			// the honest documents under the framings that announce more than they send, one endpoint at a time
 			for _, mode := range []string{"declares-8-EiB", "declares-3-GiB", "declares-one-more", "declares-one-less-gzip"} {
